@@ -136,6 +136,15 @@ def run_shard(spec, res):
             twin = dbdump.take(svc.app.db_path)
             if name in STARTUP:
                 assert st0 == 'ok', st0
+            elif name.startswith('REFUSED'):
+                # a request refused for an ordinary reason: with a fault it
+                # must still be an error that leaves nothing behind
+                if not 400 <= st0 < 500 or dbdump.diff(start, twin):
+                    res.violation('C17|refused-corpus-request|%s' % name,
+                                  'fault-free %s answered %s / changed the '
+                                  'state' % (name, st0), {})
+                    continue
+                res.count('refused_requests')
             elif not 200 <= st0 < 300:
                 res.violation('C17|corpus-request-not-accepted|%s' % name,
                               'fault-free %s answered %s: %s' % (
@@ -262,8 +271,9 @@ def run_shard(spec, res):
                        'diff_vs_start': dbdump.diff(start, after)[:8]}
                 tx = 'in-alloc-write-step' if k in zone else (
                     'startup' if name in STARTUP else 'elsewhere')
-                where = '%s|%s|%s' % (name.split(' ')[0] + ' ' + (
-                    name.split(' ')[1] if ' ' in name else ''), skind, tx)
+                rname = name[8:] if name.startswith('REFUSED ') else name
+                where = '%s|%s|%s' % (rname.split(' ')[0] + ' ' + (
+                    rname.split(' ')[1] if ' ' in rname else ''), skind, tx)
                 if kind == 'DUP' and not required and len(job) == 1 and \
                         outcome.startswith('success-but'):
                     # An injected duplicate-key error where no racing row
@@ -284,8 +294,9 @@ def run_shard(spec, res):
                             '%s (%s)' % (name, kind, k, skind, st, outcome),
                             wit)
                     continue
-                if len(job) > 1 and outcome == 'error-with-residue' and \
-                        injs[1].fired:
+                if outcome == 'error-with-residue' and (
+                        (len(job) > 1 and injs[1].fired) or
+                        name.startswith('REFUSED')):
                     # two faults in one request: is the residue nothing but
                     # consumer records this request auto-created (they hold
                     # no allocations), i.e. the second fault hit the removal
@@ -296,8 +307,9 @@ def run_shard(spec, res):
                     for cc in extra:
                         ca['consumers'].pop(cc)
                     if extra and not (extra & held) and ca == cs:
-                        outcome = 'auto-created-consumer-left-after-' \
-                                  'second-fault'
+                        outcome = 'auto-created-consumer-left-after-' + (
+                            'second-fault' if len(job) > 1 else
+                            'fault-in-refused-request')
                         where = where.split('|')[0]
                 res.violation(
                     'C17|%s|%s|%s' % (outcome, '+'.join(kd for _, kd in job),
